@@ -21,6 +21,12 @@ type c02Case struct {
 	C     *mon.ElemCase `json:"c,omitempty"`
 	Alias string        `json:"alias,omitempty"` // distinct | same (argument is the receiver) | copy
 	Rel   string        `json:"rel,omitempty"`   // relation of B to A
+	// Trap: the argument element lives in a page that is read-only for the duration of the call.
+	Trap bool `json:"trap,omitempty"`
+	// Move: the receiver is an object that first held Move.From, was used, and was driven to A's value (A is ignored).
+	Move *mon.ElemMove `json:"move,omitempty"`
+	// Steer names the formula intermediate that this case's representation puts on a structured stored value.
+	Steer string `json:"steer,omitempty"`
 }
 
 func init() {
@@ -31,6 +37,9 @@ func init() {
 			"crossed with representation pairs (affine, λ-scaled with structured/random λ, identity as (0:Y:0) with structured/random Y) and aliasing {distinct, argument is the receiver, argument is a Copy}; " +
 			"Double/Negate on every pool point in every structured representation; nil arguments; chains (P+Q)+R and P+Q-Q; PRNG cases. " +
 			"Oracle: textbook affine chord-and-tangent in math/big; the raw result must also be canonical and satisfy Y^2Z=X^3+7Z^3; the argument's stored limbs must be bit-identical afterwards. " +
+			"Steered cases: λ is solved so that a first-level intermediate of the formulas (Y^2, Z^2, YZ, XY, X, Y for doubling; X1X2, Y1Y2, Z1Z2, X+Y, Y+Z, X+Z for addition) lands on a structured STORED value " +
+			"(specials, ±3 around every multiple of 2^252..2^255, around j*p/2, j*p/4, j*p/8): the thin sets on which a hand-optimised small multiple or lazy reduction inside a formula errs. " +
+			"Trap cases: the argument lives in an mmap'd page made read-only during the call (a write-then-restore of the argument is invisible to before/after comparison). History cases: the receiver reached its value through each mutator after holding, and operating with, another value. " +
 			"non-trivial = at least one operand is not O, or an identity in non-canonical form; distinct by the whole case.",
 		NewCase:  func() any { return &c02Case{} },
 		Generate: c02Generate,
@@ -39,7 +48,8 @@ func init() {
 			return map[string]int64{
 				"rel:O": 50, "rel:P": 50, "rel:-P": 50, "rel:phiP": 50, "rel:phi2P": 50, "rel:-phiP": 20, "rel:2P": 50, "rel:unrelated": 50,
 				"alias:same": 50, "alias:copy": 50, "op:add-nil": 5, "op:sub-nil": 5, "op:double": 100, "op:negate": 100, "op:assoc": 50,
-				"O+O": 20, "idrepr:id-y": 50,
+				"O+O": 20, "idrepr:id-y": 50, "steer:Y2": 50, "steer:Z2": 50, "steer:YZ": 20, "steer:XY": 20, "steer:X1X2": 50, "steer:Y1Y2": 50, "steer:Z1Z2": 50, "steer:X+Y": 50,
+				"trap-cases": 300, "trap-liveness": 1, "history-cases": 100,
 			}
 		},
 	})
@@ -122,7 +132,61 @@ func c02Generate(c *mon.Ctx) {
 		}
 	}
 
-	// 3. PRNG cases
+	// 3. steered intermediates
+	targets := gen.StoredTargets(oracle.P)
+	stride := c.N(3, 1)
+
+	for ti := int(c.Seed % uint64(stride)); ti < len(targets); ti += stride {
+		t := targets[ti]
+		pv := pool.NonInf[ti%len(pool.NonInf)]
+		qv := pool.NonInf[(ti*7+3)%len(pool.NonInf)]
+
+		for _, which := range []string{"Y2", "Z2", "YZ", "XY", "X", "Y"} {
+			if rp, ok := gen.ReprHitting(pv.P, which, t); ok {
+				a, w := mon.MkElemCase(pv, rp), which
+				c.Structured(func() any { return &c02Case{Op: "double", A: a, Steer: w} })
+				c.Structured(func() any { return &c02Case{Op: "add", A: a, Alias: "same", Rel: "P", Steer: w} })
+			}
+		}
+
+		for _, which := range []string{"X+Y", "Y+Z", "X+Z"} {
+			if rp, ok := gen.ReprHitting(pv.P, which, t); ok {
+				a, b, w := mon.MkElemCase(pv, rp), mon.MkElemCase(qv, gen.DrawRepr(sr, false)), which
+				c.Structured(func() any { return &c02Case{Op: "add", A: a, B: &b, Alias: "distinct", Rel: "unrelated", Steer: w} })
+				c.Structured(func() any { return &c02Case{Op: "sub", A: b, B: &a, Alias: "distinct", Rel: "unrelated", Steer: w} })
+			}
+		}
+
+		l1 := gen.DrawRepr(sr, false)
+		for _, which := range []string{"X1X2", "Y1Y2", "Z1Z2"} {
+			for _, rel := range []gen.PV{qv, {P: pv.P, Tag: "P"}, {P: oracle.Neg(pv.P), Tag: "-P"}} {
+				if rp, ok := gen.ReprPairHitting(pv.P, rel.P, l1.L, which, t); ok {
+					tag := rel.Tag
+					if tag != "P" && tag != "-P" {
+						tag = "unrelated"
+					}
+
+					a, b, w := mon.MkElemCase(pv, l1), mon.MkElemCase(gen.PV{P: rel.P, Tag: tag}, rp), which
+					c.Structured(func() any { return &c02Case{Op: "add", A: a, B: &b, Alias: "distinct", Rel: tag, Steer: w} })
+				}
+			}
+		}
+	}
+
+	// 4. history cases: the receiver reached its value through each mutator
+	hr := c.SharedRng("moves")
+
+	for rep := 0; rep < 6; rep++ {
+		for _, via := range mon.ElemVias {
+			mv := mon.PlanElemMove(via, hr)
+			q := gen.Fresh(hr)
+			b := mon.MkElemCase(q, gen.DrawRepr(hr, false))
+			op := []string{"add", "sub", "double", "negate"}[rep%4]
+			c.Structured(func() any { return &c02Case{Op: op, B: &b, Alias: "distinct", Rel: "unrelated", Move: &mv} })
+		}
+	}
+
+	// 5. PRNG cases
 	c.Random(c.N(40000, 4000000), func(r *gen.Rng) any {
 		var pv gen.PV
 
@@ -180,15 +244,73 @@ func c02Generate(c *mon.Ctx) {
 
 			op := []string{"add", "sub"}[r.Intn(2)]
 
-			return &c02Case{Op: op, A: a, B: &b, Alias: "distinct", Rel: q.Tag}
+			return &c02Case{Op: op, A: a, B: &b, Alias: "distinct", Rel: q.Tag, Trap: r.Intn(4) == 0}
 		}
 	})
 }
 
+func c02Guard(c *mon.Ctx) *mon.Guard {
+	if g, ok := c.Scratch["guard"].(*mon.Guard); ok {
+		return g
+	}
+
+	g, err := mon.NewGuard()
+	if err != nil {
+		panic("harness: cannot map guard pages: " + err.Error())
+	}
+
+	c.Scratch["guard"] = g
+
+	// liveness: a protected object used as a receiver must trap
+	ep := (*secp256k1.Element)(g.Ptr(512))
+	ep.Base()
+	g.Protect()
+
+	if f, _, _ := mon.Trap(func() { ep.Double() }); f != nil {
+		c.Count("trap-liveness")
+	} else {
+		c.Inconclusive("page-protection trap did not fire on a deliberate store")
+	}
+
+	g.Unprotect()
+
+	return g
+}
+
 func c02Run(c *mon.Ctx, csAny any) {
 	cs := csAny.(*c02Case)
+
+	if cs.Move != nil {
+		cs.A = mon.ElemCase{P: cs.Move.To, R: mon.ReprCase{Kind: "moved:" + cs.Move.Via, L: "1"}}
+	}
+
 	pa := cs.A.P.Pt()
-	a := cs.A.Build()
+
+	var a *secp256k1.Element
+
+	if cs.Move != nil {
+		c.Count("history-cases")
+
+		a = cs.Move.From.Build()
+		a.Copy().Add(a).Subtract(secp256k1.Base()) // the old value takes part in arithmetic
+		_ = a.Encode()
+
+		if pan, pv := mon.Call(func() { mon.ApplyElemMove(a, *cs.Move) }); pan {
+			if m, ok := pv.(string); ok && len(m) > 8 && m[:8] == "harness:" {
+				panic(m)
+			}
+
+			c.Fail(fmt.Sprintf("mutator %s panicked: %v", cs.Move.Via, pv), "grouplaw-history-panic", nil)
+
+			return
+		}
+	} else {
+		a = cs.A.Build()
+	}
+
+	if cs.Steer != "" {
+		c.Count("steer:" + cs.Steer)
+	}
 
 	c.Count("op:" + cs.Op)
 
@@ -274,6 +396,15 @@ func c02Run(c *mon.Ctx, csAny any) {
 				nontrivial = true
 			}
 
+			if cs.Trap {
+				// move the argument into the guard page; it is made read-only around the call below
+				g := c02Guard(c)
+				bp := (*secp256k1.Element)(g.Ptr(1024))
+				x, y, z := secp256k1.VRaw(b)
+				secp256k1.VSetRaw(bp, x, y, z)
+				b = bp
+			}
+
 			if cs.B.P.Inf {
 				c.Count("idrepr:" + cs.B.R.Kind)
 			}
@@ -295,13 +426,39 @@ func c02Run(c *mon.Ctx, csAny any) {
 
 		var ret *secp256k1.Element
 
-		pan, pv := mon.Call(func() {
+		doCall := func() {
 			if cs.Op == "add" {
 				ret = a.Add(b)
 			} else {
 				ret = a.Subtract(b)
 			}
-		})
+		}
+
+		var (
+			pan bool
+			pv  any
+		)
+
+		if cs.Trap && cs.Alias == "distinct" {
+			c.Count("trap-cases")
+
+			g := c02Guard(c)
+			g.Protect()
+
+			var f *mon.Fault
+
+			f, pan, pv = mon.Trap(doCall)
+
+			g.Unprotect()
+
+			if f != nil {
+				c.Fail(fmt.Sprintf("%s stored into its (read-only) argument: %s", cs.Op, f), cs.Op+"-writes-argument", map[string]any{"stack": f.Stack})
+				return
+			}
+		} else {
+			pan, pv = mon.Call(doCall)
+		}
+
 		if pan {
 			c.Fail(fmt.Sprint(cs.Op, " panicked: ", pv), cs.Op+"-panic", nil)
 			return
@@ -344,7 +501,7 @@ func c02Run(c *mon.Ctx, csAny any) {
 	}
 
 	if nontrivial {
-		c.Seen(cs.Op, cs.A, cs.B, cs.C, cs.Alias)
+		c.Seen(cs.Op, cs.A, cs.B, cs.C, cs.Alias, cs.Trap, cs.Move)
 
 		if c.WantSample() && cs.B != nil {
 			c.Sample(map[string]any{"case": cs, "expected_encode": mon.H(oracle.EncC(want)), "observed_encode": mon.H(a.Encode()), "raw_result": mon.Snap(a).String()})
